@@ -33,6 +33,8 @@ def evaluate(model, prop, spec, sched, opts, tag):
         for r in obs['runs']:
             if r['input_before'] != r['input_after']:
                 probs.append("the caller's input_kwargs changed: %s -> %s" % (json.dumps(r['input_before']), json.dumps(r['input_after'])))
+            if r.get('reused_objects'):
+                probs.append('node objects were used for more than one invocation: nodes %s' % r['reused_objects'])
     return probs, obs, ref
 
 
